@@ -63,7 +63,14 @@ var adRoutes = []adRoute{
 	{v6("fd00:2::"), v6mask(64), "", 2},
 	{v6("::"), v6mask(0), v6("fd00:1::fe"), 1},
 	{v6("::"), v6mask(0), v6("fd00:2::fe"), 2},
+	// two networks behind routers that carry the same address on two different links (every home LAN's
+	// router is 192.168.1.1): one next-hop address, one neighbour per interface
+	{"\x0a\x0a\x00\x00", "\xff\xff\x00\x00", "\xc0\xa8\x01\x01", 1},
+	{"\x0a\x0b\x00\x00", "\xff\xff\x00\x00", "\xc0\xa8\x01\x01", 2},
 }
+
+// adOrder: table order "as an administrator writes it" (specific before general); indices into adRoutes
+var adOrder = []int{0, 1, 2, 3, 4, 12, 13, 5, 6, 7, 8, 9, 10, 11}
 
 // v6 builds the few IPv6 addresses used here: "fd00:N::H" or "2001:db8::H" or "::".
 func v6(s string) string {
@@ -113,13 +120,14 @@ var (
 	}
 	adMAC = []tcpip.LinkAddress{"", "\x02\xaa\x00\x00\x01\x01", "\x02\xaa\x00\x00\x02\x01", ""}
 	adDst = []tcpip.Address{"\x0a\x00\x01\x07", "\x0a\x00\x01\xfe", "\x0a\x00\x02\x07", "\x0a\x00\x03\x07", "\x0a\x09\x00\x05", "\x0a\x09\x01\x05",
-		"\x08\x08\x08\x08", "\x0a\xc8\x00\x01", tcpip.Address(v6("fd00:1::7")), tcpip.Address(v6("fd00:2::7")), tcpip.Address(v6("2001:db8::5"))}
+		"\x08\x08\x08\x08", "\x0a\xc8\x00\x01", tcpip.Address(v6("fd00:1::7")), tcpip.Address(v6("fd00:2::7")), tcpip.Address(v6("2001:db8::5")),
+		"\x0a\x0a\x00\x05", "\x0a\x0b\x00\x05"}
 	adLocal = []tcpip.Address{"\x0a\x00\x01\x01", "\x0a\x00\x01\x02", "\x0a\x00\x02\x01", "\x0a\x00\x03\x01", tcpip.Address(v6("fd00:1::1")), tcpip.Address(v6("fd00:2::1"))}
 )
 
 func (scAddr) GenCfg(rng *sim.Rand, tier, prop, variant string) json.RawMessage {
 	c := AddrCfg{Fd: [2]bool{rng.Chance(0.4), rng.Chance(0.4)}, MaxSteps: rng.Range(8, 60)}
-	for i := range adRoutes {
+	for _, i := range adOrder {
 		if rng.Chance(0.75) {
 			c.Routes = append(c.Routes, i)
 		}
